@@ -119,7 +119,25 @@ func (p *Pre) For(script string) string {
 		}
 		tail = rest[end+len("; @endconst\n"):]
 	}
-	return b.String()
+	out := b.String()
+	// a lemma's own proof script must not contain the lemma (nor the lemmas after it) as an axiom
+	if i := strings.Index(script, "; @provinglemma "); i >= 0 {
+		limit := 0
+		fmt.Sscan(script[i+len("; @provinglemma "):], &limit)
+		var kept strings.Builder
+		for _, l := range strings.SplitAfter(out, "\n") {
+			if j := strings.Index(l, "; @lemma "); j >= 0 {
+				k := 0
+				fmt.Sscan(l[j+len("; @lemma "):], &k)
+				if limit > 0 && k >= limit {
+					continue
+				}
+			}
+			kept.WriteString(l)
+		}
+		out = kept.String()
+	}
+	return out
 }
 
 func splitForms(text string) []string {
